@@ -599,3 +599,120 @@ def defaults_lattice(tier, seed):
                     chains.append(("default-constant:" + wname, G.shape(g), ch))
         groups.append((pre, asts, chains))
     return groups
+
+
+# ------------------------------------------------------------------ instances that have AGED
+
+def _seq(k, item):
+    return {"t": "seqeach", "k": k, "item": item, "sz": [None, None], "uniq": False}
+
+
+def _set(item):
+    return {"t": "set", "imm": False, "item": item, "sz": [None, None]}
+
+
+# declarations whose stored value contains a container that typedpy hands out UNWRAPPED (a plain python
+# set / list / dict): name, declaration builder, value builder (ys: two conforming leaf values)
+AGED_SHAPES = [
+    ("arr-set", lambda g: _seq("list", _set(g)), lambda ys: ("list", [G.mk_set(False, ys[:1]), G.mk_set(False, ys)])),
+    ("arr-arr", lambda g: _seq("list", _seq("list", g)), lambda ys: ("list", [("list", ys[:1]), ("list", ys)])),
+    ("arr-arr-arr", lambda g: _seq("list", _seq("list", _seq("list", g))), lambda ys: ("list", [("list", [("list", ys)])])),
+    ("deq-set", lambda g: _seq("deque", _set(g)), lambda ys: ("deque", [G.mk_set(False, ys)])),
+    ("deq-arr", lambda g: _seq("deque", _seq("list", g)), lambda ys: ("deque", [("list", ys)])),
+    ("arrpos-set", lambda g: {"t": "seqpos", "k": "list", "items": [_set(g), INT], "sz": [None, None], "uniq": False,
+                              "additional": None}, lambda ys: ("list", [G.mk_set(False, ys), I(1)])),
+    ("arr-map", lambda g: _seq("list", {"t": "mapkv", "kf": STR, "vf": g, "sz": [None, None]}),
+     lambda ys: ("list", [G.mk_dict([(S_("a"), ys[0])])])),
+    ("arr-tup-set", lambda g: _seq("list", {"t": "tuple", "items": [_set(g), STR], "uniq": False}),
+     lambda ys: ("list", [("tuple", [G.mk_set(False, ys), S_("a")])])),
+    ("map-set", lambda g: {"t": "mapkv", "kf": STR, "vf": _set(g), "sz": [None, None]},
+     lambda ys: G.mk_dict([(S_("a"), G.mk_set(False, ys))])),
+    ("map-arr", lambda g: {"t": "mapkv", "kf": STR, "vf": _seq("list", g), "sz": [None, None]},
+     lambda ys: G.mk_dict([(S_("a"), ("list", ys))])),
+    ("tup-set", lambda g: {"t": "tuple", "items": [_set(g), STR], "uniq": False},
+     lambda ys: ("tuple", [G.mk_set(False, ys), S_("a")])),
+    ("set", lambda g: _set(g), lambda ys: G.mk_set(False, ys)),
+    ("arr-any", lambda g: _seq("list", {"t": "anyof", "fs": [_set(g), NONEF]}), lambda ys: ("list", [G.mk_set(False, ys)])),
+]
+
+AGED_WAYS = ("clone", "clone-over", "cast-down", "cast-up", "from_other", "from_other-sub", "ctor_attr", "mapping_attr",
+             "object_attr", "deser_attr", "ctor_attr-other", "from_other-other")
+
+
+def aged_leaves():
+    return [INT, {"t": "num", "k": "Float", "s": "Any"}, _num("Integer", mn=I(0), mx=I(9)),
+            {"t": "str", "min": None, "max": 3, "pat": None}, {"t": "bool"},
+            {"t": "enumcls", "cls": "Color", "members": ["RED", "GREEN"]},
+            {"t": "enumlit", "values": [E.reify(1), E.reify("a")]}]
+
+
+def aged_lattice(tier, seed):
+    """[(tag, class ASTs, [(shape name, leaf shape, chain)])].  A valid instance is built, then it AGES: a container
+    that typedpy hands out unwrapped (a set inside an Array, the inner list of an Array of Arrays, a dict or a set
+    inside a Tuple / Map ...) is altered in place with a value the item declaration rejects - no typedpy code runs.
+    The field's LIVE stored object (not a copy) is then handed to every validating way in.  Each must re-validate and
+    refuse; one that hands out an instance is judged by the spec on that instance."""
+    quick = tier == "quick"
+    groups = []
+    for li, g in enumerate(aged_leaves()):
+        pre = "X%d_%d" % (seed, li)
+        probe = _definable(class_src({"name": "P", "fields": [{"name": "f", "field": g}], "required": ["f"]}))
+        if probe is None:
+            continue
+        own = near_own(g)
+        ys = [x for x in own if G.is_hashable(x) and _accepts(probe, "P", x)][:2]
+        bads = [x for x in _dedupe(own + [S_("not-it"), NONE, F(0.5)]) if G.is_hashable(x) and not _accepts(probe, "P", x)]
+        if len(ys) < 1 or not bads:
+            continue
+        ys = (ys * 2)[:2]
+        asts, chains = [], []
+        for si, (sname, mk_decl, mk_val) in enumerate(AGED_SHAPES):
+            if sname in ("arr-map",) and not hashable_leaf(g):
+                continue
+            decl = mk_decl(g)
+            t = {"name": "%sT%d" % (pre, si), "fields": [{"name": "f", "field": decl}, {"name": "k", "field": INT}],
+                 "required": ["f"], "additional": False}
+            sub = {"name": "%sS%d" % (pre, si), "base": t["name"], "fields": [{"name": "s", "field": INT}],
+                   "required": ["f"], "additional": False}
+            oth = {"name": "%sO%d" % (pre, si), "fields": [{"name": "f", "field": decl}], "required": ["f"],
+                   "additional": False}
+            if _definable(class_src(t)) is None:
+                continue
+            asts += [t, sub, oth]
+            good = mk_val(ys)
+            nb = 1 if quick else min(3, len(bads))
+            for bi in range(nb):
+                bad = bads[(si + bi) % len(bads)]
+                ways = AGED_WAYS if (not quick or (si + li) % 2 == 0) else \
+                    tuple(AGED_WAYS[(si + li + 5 * j) % len(AGED_WAYS)] for j in range(6))
+                for w in ways:
+                    start = sub["name"] if w == "cast-up" else t["name"]
+                    ch = [["ctor", start, [("f", good), ("k", I(1))]], ["corrupt", "f", bad]]
+                    if w == "clone":
+                        ch.append(["clone", []])
+                    elif w == "clone-over":
+                        ch.append(["clone", [("k", I(2))]])
+                    elif w == "cast-down":
+                        ch.append(["cast", sub["name"]])
+                    elif w == "cast-up":
+                        ch.append(["cast", t["name"]])
+                    elif w == "from_other":
+                        ch.append(["from_other", t["name"], []])
+                    elif w == "from_other-sub":
+                        ch.append(["from_other", sub["name"], [("s", I(3))]])
+                    elif w == "from_other-other":
+                        ch.append(["from_other", oth["name"], []])
+                    elif w == "ctor_attr":
+                        ch.append(["ctor_attr", t["name"], "f"])
+                    elif w == "ctor_attr-other":
+                        ch.append(["ctor_attr", oth["name"], "f"])
+                    elif w == "mapping_attr":
+                        ch.append(["mapping_attr", t["name"], "f"])
+                    elif w == "object_attr":
+                        ch.append(["object_attr", t["name"], "f"])
+                    elif w == "deser_attr":
+                        ch.append(["deser_attr", t["name"], "f", "deserialize_structure" if bi % 2 else "Deserializer"])
+                    chains.append((sname + ":" + w, G.shape(g), ch))
+        if asts:
+            groups.append((pre, asts, chains))
+    return groups
